@@ -17,6 +17,31 @@ prop('C02', 'translation_validation',
      'callbacks outside.',
      'SMT translation validation (z3 QF_UFNRA) of generated code vs declared equations', 'DESIGN.md 3/C02')
 
+prop('C03', 'translation_validation',
+     'Every generated Jacobian entry of every model is proved by z3 equal, for all real arguments, to the derivative of the '
+     'declared equation string taken by an independent structural differentiator; the stored triplet pattern is proved '
+     'complete (every absent equation/variable pair has an identically-zero derivative); constant triplets equal the '
+     'declared diag_eps; a sat is replayed on the real generated function against central finite differences.',
+     'floats abstracted as reals; transcendental functions uninterpreted + lemma instances; 12 Fortescue entries '
+     '(sqrt/atan2 of trigonometric sums) stay unknown and are reported as such; kvxopt internals outside.',
+     'SMT translation validation (z3 QF_UFNRA) of generated Jacobians vs symbolic derivatives', 'DESIGN.md 3/C03')
+prop('C09', 'other',
+     'Bounded symbolic execution (pysym) of the real check_var/check_eq of every discrete class on symbolic inputs, limits, '
+     'equation values and time stamps; per path z3 decides flag semantics (0/1, agreement with comparisons, exhaustive, '
+     'exclusive for lower<upper), anti-windup pegging (x=limit, xdot=0, x_set), rate clamps, and equality of Delay/Average/'
+     'Derivative/Sampling/DeadBandRT outputs with reference definitions over all stamp sequences within the bound.',
+     'vectors <= 3, histories <= 5 calls, niter in {0,4,5}; floats as reals; numpy.isnan stubbed for symbols; whole-simulation '
+     'clamping outside.',
+     'path-forking symbolic execution of real numpy code + z3 per-path queries', 'DESIGN.md 3/C09')
+prop('C18', 'other',
+     'Per block class: the declared equations (read back from a host Model after the real name-spacing) imply the documented '
+     'transfer function identity Y*den(s) = num(s)*U for ALL parameter values, all s and all inputs (z3 QF_NRA); bypass flags '
+     'come from executing the real LessThan/DeadBand.check_var on symbolic parameters; steady state: the declared initial '
+     'values zero every equation for every constant input; limited variants inside limits reduce to the unlimited block.',
+     'admissible-parameter preconditions per block are listed in the evidence; limiter flags fixed in-range; freeze inputs 0; '
+     'time response outside.',
+     'SMT (z3 nonlinear real arithmetic) Laplace-domain identities over block equations', 'DESIGN.md 3/C18')
+
 ORDER = ['C%02d' % i for i in range(1, 21)]
 checks, na = [], []
 for pid in ORDER:
